@@ -200,7 +200,7 @@ package floatingip
 
 // ---- AllocateInSubnetsAndIPRange (C08): one IP per requested range, all or nothing ----
 //@ pure eligible(ci *crdIpam, s string, subnet string) bool = s in ci.unallocatedFIPs && hasSubnet(ci.unallocatedFIPs[s].pool, subnet)
-//@ pure inRanges(rs []nets.IPRange, s string) bool = s == ipv4str(ipv4val(s)) && exists r int :: 0 <= r && r < len(rs) && nets.val(rs[r].First) <= ipv4val(s) && ipv4val(s) <= nets.val(rs[r].Last)
+//@ pure inRanges(rs []nets.IPRange, s string) bool = s == ipv4str(ipv4val(s)) && exists r int {rs[r]} :: 0 <= r && r < len(rs) && nets.val(rs[r].First) <= ipv4val(s) && ipv4val(s) <= nets.val(rs[r].Last)
 // the facts about a picked IP are stated over the ENTRY state (old): phase 1 does not change the
 // tables or the requested ranges, and this is what the postcondition needs
 //@ pure pickedOK(ci *crdIpam, picked []string, n int, ipranges [][]nets.IPRange, subnet string) bool = (forall j int :: 0 <= j && j < n ==> (let s = picked[j] in old(eligible(ci, s, subnet)))) && (forall j int :: 0 <= j && j < n ==> (let s = picked[j] in old(inRanges(ipranges[j], s)))) && (forall i int, j int :: 0 <= i && i < j && j < n ==> picked[i] != picked[j])
@@ -220,7 +220,7 @@ package floatingip
 //@   ensures [C08:multi-none-requested-allocates-one] result1 == nil && len(ipranges) == 0 ==> exists k string :: k in ci.allocatedFIPs && attrApplied(ci.allocatedFIPs[k], key, attr)
 //@   ensures [C08,C06,C09,C01:multi-ith-in-ith-range-free-routable] result1 == nil && len(ipranges) > 0 ==> forall i int {ipranges[i]} {result0[i]} :: 0 <= i && i < len(ipranges) ==> (let s = ipstr(result0[i]) in old(inRanges(ipranges[i], s)) && old(eligible(ci, s, sub)) && s in ci.allocatedFIPs && !(s in ci.unallocatedFIPs) && attrApplied(ci.allocatedFIPs[s], key, attr))
 //@   ensures [C08:multi-distinct] result1 == nil && len(ipranges) > 0 ==> forall i int, j int :: 0 <= i && i < j && j < len(ipranges) ==> ipstr(result0[i]) != ipstr(result0[j])
-//@   ensures [C08,C01:multi-others-untouched] result1 == nil && len(ipranges) > 0 ==> forall k string :: !(exists i int :: 0 <= i && i < len(ipranges) && ipstr(result0[i]) == k) ==> ((k in ci.allocatedFIPs) == old(k in ci.allocatedFIPs)) && ((k in ci.unallocatedFIPs) == old(k in ci.unallocatedFIPs)) && ci.allocatedFIPs[k] == old(ci.allocatedFIPs[k]) && ci.unallocatedFIPs[k] == old(ci.unallocatedFIPs[k])
+//@   ensures [C08,C01:multi-others-untouched] result1 == nil && len(ipranges) > 0 ==> forall k string {k in ci.allocatedFIPs} {old(k in ci.allocatedFIPs)} :: !(exists i int :: 0 <= i && i < len(ipranges) && ipstr(result0[i]) == k) ==> ((k in ci.allocatedFIPs) == old(k in ci.allocatedFIPs)) && ((k in ci.unallocatedFIPs) == old(k in ci.unallocatedFIPs)) && ci.allocatedFIPs[k] == old(ci.allocatedFIPs[k]) && ci.unallocatedFIPs[k] == old(ci.unallocatedFIPs[k])
 //@   ensures [C08,C05:multi-failure-leaves-tables] result1 != nil ==> tablesSame(ci)
 //@   ensures [C04:multi-store-only-adds] forall k string :: old(StoreDom[k]) ==> storeSameAt(k)
 //@   ensures [C08,C05:multi-failure-leaves-store-single-fault] result1 != nil && old(faults) <= 1 ==> storeSame()
@@ -332,7 +332,7 @@ package floatingip
 //@ pure infoOfKey(ci *crdIpam, info *FloatingIPInfo, key string) bool = info.FloatingIP.Key == key && ipstr(info.FloatingIP.IP) in ci.allocatedFIPs && ci.allocatedFIPs[ipstr(info.FloatingIP.IP)].Key == key && info.FloatingIP.PodUid == ci.allocatedFIPs[ipstr(info.FloatingIP.IP)].PodUid && info.FloatingIP.NodeName == ci.allocatedFIPs[ipstr(info.FloatingIP.IP)].NodeName && info.IPInfo.IP != nil && info.IPInfo.IP.IP == info.FloatingIP.IP && subnetsOfEntry(info, ci.allocatedFIPs[ipstr(info.FloatingIP.IP)])
 //@ pure infoNetOfPool(ci *crdIpam, info *FloatingIPInfo) bool = info.IPInfo.IP.Mask == ci.allocatedFIPs[ipstr(info.FloatingIP.IP)].pool.Mask && info.IPInfo.Vlan == ci.allocatedFIPs[ipstr(info.FloatingIP.IP)].pool.Vlan && info.IPInfo.Gateway == ci.allocatedFIPs[ipstr(info.FloatingIP.IP)].pool.Gateway
 //@ pure subnetsOfEntry(info *FloatingIPInfo, fip *FloatingIP) bool = info.NodeSubnets != nil && fip.pool.nodeSubnets != nil && dom(info.NodeSubnets) == dom(fip.pool.nodeSubnets)
-//@ pure ownedIn(ci *crdIpam, key string, rs []nets.IPRange) bool = exists k string :: k in ci.allocatedFIPs && ci.allocatedFIPs[k].Key == key && inRanges(rs, k)
+//@ pure ownedIn(ci *crdIpam, key string, rs []nets.IPRange) bool = exists k string {k in ci.allocatedFIPs} :: k in ci.allocatedFIPs && ci.allocatedFIPs[k].Key == key && inRanges(rs, k)
 //@ func [C02,C08,C04,C06] (*crdIpam).ByKeyAndIPRanges
 //@   requires inv(ci) && synced(ci) && held[ptr(ci.cacheLock)] == 0
 //@   requires forall i int, r int {ipranges[i][r]} :: 0 <= i && i < len(ipranges) && 0 <= r && r < len(ipranges[i]) ==> nets.wfRange(ipranges[i][r])
@@ -347,7 +347,8 @@ package floatingip
 //@   modifies fresh FloatingIPInfo.*, fresh nets.IPNet.*, fresh mapsof(map[string]sets.Empty), fresh elemsof(string), fresh elemsof(*FloatingIPInfo), fresh elemsof(byte)
 //@   loop 0,call:walkIPRanges#0/0,call:walkIPRanges#0/1 invariant sameElems(ipinfos) && ipinfos != nil && fresh(ipinfos) && len(ipinfos) == len(ipranges) && forall j int :: 0 <= j && j < len(ipinfos) ==> ipinfos[j] == nil || (fresh(ipinfos[j]) && infoOfKey(ci, ipinfos[j], key))
 //@   loop call:walkIPRanges#0/0,call:walkIPRanges#0/1 invariant 0 <= outer_idx && outer_idx < len(ipranges) && i == outer_idx && ranges == ipranges[outer_idx]
-//@   loop 0,call:walkIPRanges#0/0,call:walkIPRanges#0/1 invariant forall j int :: 0 <= j && j < len(ipinfos) && ipinfos[j] != nil ==> inRanges(ipranges[j], ipstr(ipinfos[j].FloatingIP.IP)) && infoNetOfPool(ci, ipinfos[j])
+//@   loop 0,call:walkIPRanges#0/0,call:walkIPRanges#0/1 invariant forall j int {ipinfos[j]} :: 0 <= j && j < len(ipinfos) && ipinfos[j] != nil ==> inRanges(ipranges[j], ipstr(ipinfos[j].FloatingIP.IP))
+//@   loop 0,call:walkIPRanges#0/0,call:walkIPRanges#0/1 invariant forall j int {ipinfos[j]} :: 0 <= j && j < len(ipinfos) && ipinfos[j] != nil ==> infoNetOfPool(ci, ipinfos[j])
 //@   loop 0 invariant forall j int {ipranges[j]} :: 0 <= j && j < idx && ownedIn(ci, key, ipranges[j]) ==> ipinfos[j] != nil
 //@   loop call:walkIPRanges#0/0,call:walkIPRanges#0/1 invariant forall j int {ipranges[j]} :: 0 <= j && j < outer_idx && ownedIn(ci, key, ipranges[j]) ==> ipinfos[j] != nil
 //@   loop call:walkIPRanges#0/0,call:walkIPRanges#0/1 invariant forall k string, q int {k in ci.allocatedFIPs, ranges[q]} :: 0 <= q && q < idx && k in ci.allocatedFIPs && ci.allocatedFIPs[k].Key == key && k == ipv4str(ipv4val(k)) && nets.val(ranges[q].First) <= ipv4val(k) ==> ipv4val(k) > nets.val(ranges[q].Last)
@@ -446,7 +447,7 @@ package floatingip
 //@   ensures [C08:multi-one-per-range] result1 == nil && len(ipranges) > 0 ==> len(result0) == len(ipranges)
 //@   ensures [C08:multi-none-requested-allocates-one] result1 == nil && len(ipranges) == 0 ==> exists k string :: k in ci.allocatedFIPs && attrApplied(ci.allocatedFIPs[k], key, attr)
 //@   ensures [C08,C06,C09,C01:multi-ith-in-ith-range-free-routable] result1 == nil && len(ipranges) > 0 ==> forall i int {ipranges[i]} {result0[i]} :: 0 <= i && i < len(ipranges) ==> (let s = ipstr(result0[i]) in old(inRanges(ipranges[i], s)) && old(eligible(ci, s, sub)) && s in ci.allocatedFIPs && !(s in ci.unallocatedFIPs) && attrApplied(ci.allocatedFIPs[s], key, attr))
-//@   ensures [C08,C01:multi-others-untouched] result1 == nil && len(ipranges) > 0 ==> forall k string :: !(exists i int :: 0 <= i && i < len(ipranges) && ipstr(result0[i]) == k) ==> ((k in ci.allocatedFIPs) == old(k in ci.allocatedFIPs)) && ((k in ci.unallocatedFIPs) == old(k in ci.unallocatedFIPs)) && ci.allocatedFIPs[k] == old(ci.allocatedFIPs[k]) && ci.unallocatedFIPs[k] == old(ci.unallocatedFIPs[k])
+//@   ensures [C08,C01:multi-others-untouched] result1 == nil && len(ipranges) > 0 ==> forall k string {k in ci.allocatedFIPs} {old(k in ci.allocatedFIPs)} :: !(exists i int :: 0 <= i && i < len(ipranges) && ipstr(result0[i]) == k) ==> ((k in ci.allocatedFIPs) == old(k in ci.allocatedFIPs)) && ((k in ci.unallocatedFIPs) == old(k in ci.unallocatedFIPs)) && ci.allocatedFIPs[k] == old(ci.allocatedFIPs[k]) && ci.unallocatedFIPs[k] == old(ci.unallocatedFIPs[k])
 //@   modifies map(ci.allocatedFIPs), map(ci.unallocatedFIPs), fresh FloatingIP.*, StoreDom, StoreKey, StorePolicy, StoreNode, StoreUid, faults, fresh elemsof(byte), fresh elemsof(string), fresh elemsof(net.IP), fresh elemsof(*FloatingIP), fresh mapsof(map[string]sets.Empty)
 
 // ---- NodeSubnetsByIPRanges (filter side of C06): every offered node subnet can serve EVERY requested range ----
